@@ -6,9 +6,12 @@ semantics), NumPy `U` string storage (`stripNul`, `npStr`), `Cal.toArray`/`Cal.f
 (NaN padding, strip mask, `None`↔NaN, built-in vs custom weights), `packCalibration` /
 `unpackCalibration`, the array forms of `Config`, `SpotConfig`, `SRRConfig` (with the SRR
 constructor's recomputation), `compareVersion`, `save`, the historical renderers `saveV06`,
-`saveV07`, and `load` with its header / version / class dispatch.
+`saveV07`, and `load` with its header / version / class dispatch (legacy class names: `legacyOf`,
+`NpzFile.mapCls`; a `config` member read by the `from_array` of another class: `rasterFromArray`,
+`spotFromArray`, `srrFromArray` on every `CfgArr`).
 
-Specification: `normalise` — the laser with the info the format can carry.
+Specification: `normalise` — the laser with the info the format can carry; `compareSpec` — version
+comparison on arbitrary strings; `specOld` — files of the old layouts, accepted or rejected.
 
 Strings are `List Char` (code points).  Floats that are only stored and read back are opaque
 tokens `Flt` (the IEEE bit pattern, tagged with its NaN-ness because the code branches on
@@ -209,9 +212,11 @@ def Cal.fromArray (a : CalArr) : Cal :=
     weighting := a.weighting
     weights := if a.weighting ∈ knownWeighting then [] else rows.map (·.1) }
 
+/-- `max(v.x.size for v in dict.values())` for a non-empty dict (Python's `max` raises on an empty
+one: `save` models that raise) -/
 def maxLen (d : List (Str × Cal)) : Nat := d.foldl (fun m kc => max m kc.2.points.length) 0
 
-/-- `pack_calibration`: one record per dict entry, element names in a `U<max>` field -/
+/-- `pack_calibration` of a non-empty dict: one record per dict entry, element names in a `U<max>` field -/
 def packCalibration (d : List (Str × Cal)) : List (Str × CalArr) :=
   d.map fun kc => (stripNul kc.1, kc.2.toArray (maxLen d))
 
@@ -276,23 +281,78 @@ def Config.toArray (fl : Rat → Rat) : Config → CfgArr
 
 inductive Err
   | valueError | keyError | assertionError | typeError | indexError
+  /-- not an exception of the code: the model declines to say what happens (see `srrFromArray`) -/
+  | unmodelled
   deriving DecidableEq, Repr
 
-/-- `Config.from_array` -/
+/-! ### a binary64 bit pattern and its exact value
+
+Only needed where a configuration array is read by the `from_array` of another class (a file whose
+class name and `config` member disagree): a raster scan time is an opaque `Flt`, an SRR scan time
+an exact `Rat`. -/
+
+def pow2 (e : Int) : Rat := if 0 ≤ e then (2 : Rat) ^ e.toNat else 1 / (2 : Rat) ^ (-e).toNat
+
+/-- exact value of a binary64 bit pattern (given as a signed 64-bit integer); `none` for NaN and ±inf -/
+def valueOfBits (b : Int) : Option Rat :=
+  let u : Nat := (if b < 0 then b + 2 ^ 64 else b).toNat
+  let neg := decide (2 ^ 63 ≤ u)
+  let e : Nat := (u / 2 ^ 52) % 2048
+  let m : Nat := u % 2 ^ 52
+  if e = 2047 then none
+  else
+    let a : Rat := if e = 0 then (m : Rat) * pow2 (-1074) else (((2 ^ 52 + m : Nat) : Int) : Rat) * pow2 ((e : Int) - 1075)
+    some (if neg then -a else a)
+
+def Flt.toRat? : Flt → Option Rat
+  | .num b => valueOfBits b
+  | .nan _ => none
+
+/-- bit pattern (signed 64-bit integer) of the binary64 whose exact value is `q`; meaningful only for
+`q` that is such a value (every scan time the driver receives is one) -/
+def bitsOfRat (q : Rat) : Int :=
+  if q = 0 then 0
+  else
+    let a : Rat := if q < 0 then -q else q
+    -- ⌊log₂ a⌋ up to one, corrected below
+    let e0 : Int := (Nat.log2 a.num.natAbs : Int) - (Nat.log2 a.den : Int)
+    let e : Int := if a < pow2 e0 then e0 - 1 else if pow2 (e0 + 1) ≤ a then e0 + 1 else e0
+    let u : Int :=
+      if -1022 ≤ e then (e + 1023) * 2 ^ 52 + ((a * pow2 (52 - e)).floor - 2 ^ 52)
+      else (a * pow2 1074).floor
+    if q < 0 then u - 2 ^ 63 else u
+
+def fltOfRat (q : Rat) : Flt := .num (bitsOfRat q)
+
+/-- `Config.from_array`: reads the fields `spotsize`, `speed`, `scantime`; further fields (an SRR
+array's `warmup`, `subpixel_offsets`) are ignored; a spot array's `spotsize` holds two numbers, so
+`float()` of it raises TypeError -/
 def rasterFromArray : CfgArr → Except Err Config
   | .raster a b c => pure (.raster a b c)
-  | .srr .. => throw .typeError        -- not generated: extra fields would be ignored
-  | .spot .. => throw .valueError      -- no field `speed`
+  | .srr a b s _ _ => pure (.raster a b (fltOfRat s))
+  | .spot .. => throw .typeError
 
-/-- `SpotConfig.from_array` -/
+/-- `SpotConfig.from_array`: `array["spotsize"][0]` on a 0-d field -/
 def spotFromArray : CfgArr → Except Err Config
   | .spot a b => pure (.spot a b)
   | _ => throw .indexError
 
-/-- `SRRConfig.from_array` -/
+/-- `SRRConfig()`'s default warm-up (12.5 s) and sub-pixel offsets -/
+def srrDefaultWarmup : Rat := 25 / 2
+def srrDefaultOffsets : List (Int × Int) := [(0, 2), (1, 2)]
+
+/-- `SRRConfig.from_array`: `cls(**{name: array[name]})`.  A raster array has no `warmup` /
+`subpixel_offsets`, the constructor's defaults apply.  Not modelled (`unmodelled`, never generated,
+counted as undetermined by the harness): a raster scan time that is zero or not finite (the warm-up
+becomes `np.round(±inf or nan).astype(int)`), and a spot array (the call succeeds with an
+array-valued `spotsize`, which `Config` here cannot hold). -/
 def srrFromArray (fl : Rat → Rat) : CfgArr → Except Err Config
   | .srr a b s w o => if o = [] then throw .valueError else pure (.srr (SRR.mk' fl a b s w o))
-  | _ => throw .typeError              -- not generated: the constructor defaults would apply
+  | .raster a b c =>
+    match c.toRat? with
+    | some s => if s = 0 then throw .unmodelled else pure (.srr (SRR.mk' fl a b s srrDefaultWarmup srrDefaultOffsets))
+    | none => throw .unmodelled
+  | .spot .. => throw .unmodelled
 
 /-! ## versions -/
 
@@ -316,6 +376,27 @@ def compareVersion (va vb : Str) : Except Err Int :=
 def lexZip : List Nat → List Nat → Int
   | a :: as, b :: bs => if a > b then 1 else if a < b then -1 else lexZip as bs
   | _, _ => 0
+
+/-- a decimal number as `parseNat` accepts it -/
+def isNum (s : Str) : Bool := !s.isEmpty && s.all Char.isDigit
+
+def numVal (s : Str) : Nat := s.foldl (fun n c => 10 * n + (c.toNat - '0'.toNat)) 0
+
+/-- a pair of components that does not let the comparison pass on: one of them is not a number, or
+the numbers differ -/
+def decisive (ab : Str × Str) : Bool := !(isNum ab.1 && isNum ab.2 && numVal ab.1 == numVal ab.2)
+
+/-- specification of `compare_version` for arbitrary strings, stated on the list of component pairs
+(`zip` stops at the shorter version): the first decisive pair decides — `ValueError` if one of its
+components is not a number, else the sign of the difference; no decisive pair: equal.  Components
+after the decisive pair, and components beyond the shorter version, are never looked at
+("0.6.0.x" equals "0.6.0", "1.x" is newer than "0.6.0", "0.x" against "0.6.0" raises). -/
+def compareSpec (va vb : Str) : Except Err Int :=
+  match ((splitOn '.' va).zip (splitOn '.' vb)).find? decisive with
+  | none => .ok 0
+  | some ab =>
+    if isNum ab.1 && isNum ab.2 then .ok (if numVal ab.1 > numVal ab.2 then 1 else -1)
+    else .error .valueError
 
 def v060 : Str := ['0','.','6','.','0']
 def v070 : Str := ['0','.','7','.','0']
@@ -397,8 +478,12 @@ def mkLaser (kind : Kind) (fields : List (Str × Str)) (layers : List Layer)
     cal := dictUpdate (fields.map fun f => (f.1, Cal.default)) cal,
     config := config, info := info }
 
-/-- `npz.save` (0.8+ header layout); `ver` = `version("pewlib")`, `time` = `str(time.time())` -/
+/-- `npz.save` (0.8+ header layout); `ver` = `version("pewlib")`, `time` = `str(time.time())`.
+The arguments of `np.savez_compressed` are evaluated first: `pack_calibration` of a laser without
+elements (empty calibration dict) raises `ValueError: max() iterable argument is empty` before
+anything is written or the data are converted. -/
 def save (fl : Rat → Rat) (ver time : Str) (L : Laser) : Except Err NpzFile := do
+  if L.cal.isEmpty then throw .valueError
   let data ← dataToArray L
   pure { header := some (packInfo [(kVersion, ver), (kClass, classOf L.config), (kTime, time)])
          version := none, cls := none, data := data, name := none
@@ -431,6 +516,16 @@ def getOr {α} (e : Err) : Option α → Except Err α
 def clsLaser : List Str := [['L','a','s','e','r'], ['R','a','s','t','e','r']]
 def clsSpot : List Str := [['S','p','o','t']]
 def clsSRR : List Str := [['S','R','R','L','a','s','e','r'], ['S','R','R']]
+
+def cRaster : Str := ['R','a','s','t','e','r']
+def cSRR : Str := ['S','R','R']
+
+/-- the class names the oldest files carry: `Laser` for `Raster`, `SRRLaser` for `SRR` -/
+def legacyOf (c : Str) : Str :=
+  if c = cRaster then ['L','a','s','e','r'] else if c = cSRR then ['S','R','R','L','a','s','e','r'] else c
+
+/-- the same file with its `_class` member renamed -/
+def NpzFile.mapCls (f : NpzFile) (g : Str → Str) : NpzFile := { f with cls := f.cls.map g }
 
 /-- the `header` dict of `load`: version and (looked up later) class -/
 def loadHeader (f : NpzFile) : Except Err (Str × Option Str) :=
@@ -508,6 +603,17 @@ def normalise (p : PathInfo) (ver : Str) (L : Laser) : Laser :=
 def normaliseV06 (p : PathInfo) (ver : Str) (L : Laser) : Laser :=
   { L with info := finishInfo p ver [(kName, (dictGet L.info kName).getD [])] }
 
+/-- specification of loading a file that describes `L` in an old layout (`v06`: the 0.6 layout, else
+the 0.7 layout) and declares version `ver`: rejected with `ValueError` when `ver` is older than 0.6.0
+or cannot be compared with it, else the laser with the info that layout carries.  Stated with
+`compareSpec`, not with the loader's `compareVersion`. -/
+def specOld (v06 : Bool) (p : PathInfo) (ver : Str) (L : Laser) : Except Err Laser :=
+  match compareSpec ver v060 with
+  | .error _ => .error .valueError
+  | .ok r =>
+    if r = -1 then .error .valueError
+    else .ok (if v06 then normaliseV06 p ver L else normalise p ver L)
+
 /-- two lasers equal as Python objects: dicts compare without order -/
 def Laser.same (a b : Laser) : Prop :=
   a.kind = b.kind ∧ a.fields = b.fields ∧ a.layers = b.layers ∧ a.cal = b.cal ∧ a.config = b.config ∧
@@ -552,9 +658,14 @@ def layersOk (kind : Kind) (layers : List Layer) : Bool :=
     decide (1 ≤ ls.length) && (l :: ls).all fun m => m.shape == l.shape && m.cells.length == prod l.shape
   | _, _ => false
 
-/-- a laser inside the property's quantifier -/
+/-- a laser inside the property's quantifier: at least one element (a structured array without
+fields makes a `Laser` that `save` cannot write), element names without trailing NUL (distinct by
+construction of a structured dtype), one calibration per element in element order (what the
+constructors build), every calibration `Cal.ok`, configuration class matching the laser class and
+`Config.ok`, one layer or ≥ 2 layers of equal shape, packed info not ending in NUL -/
 def Laser.ok (L : Laser) : Bool :=
-  (keys L.fields).all noNulEnd && decide (keys L.fields).Nodup
+  !L.fields.isEmpty
+  && (keys L.fields).all noNulEnd && decide (keys L.fields).Nodup
   && keys L.cal == keys L.fields
   && L.cal.all (·.2.ok)
   && (L.config.isSRR == (L.kind == .srr)) && L.config.ok
